@@ -3,6 +3,9 @@ from props import units_leaf as ULF
 from props import l2_queries as L
 from props.common import *
 from props import units_main as UM
+from props import units_batch as UB
+CFG_P2SH = Query('cfg_p2sh_embedded', 'harness', UB.unit_cfg_p2sh_embedded, 'h_cfg_p2sh_embedded', defines=['VERIF_ITEM_CAP=40'], unwind=44, timeout=600, object_bits=10,
+                 functions=['instance.cpp: Instance::configure_tx_txin (P2SH-embedded branch of the witness part: program extraction and HASH160 check; GetOp and HASH160 as oracles)'])
 CFG_TAPROOT = Query('cfg_taproot', 'harness', UM.unit_cfg_taproot, 'h_cfg_taproot', defines=['VERIF_STACK_W=5', 'VERIF_ITEM_CAP=40', 'VERIF_SCRIPT_CAP=40'], unwind=44, timeout=1800, object_bits=10,
                     functions=['instance.cpp: Instance::configure_tx_txin (witness-v1 branch: annex, key path / script path, control-block size rule, leaf version, tapscript budget, initial stack)'],
                     bounded='witness stacks of at most 5 items; item bytes beyond 40 modelled by length')
@@ -10,7 +13,7 @@ QUERIES = [Query('parse_input', 'harness', ULF.unit_parse_input, 'h_parse_input'
                  functions=['instance.cpp: Instance::parse_input_transaction'], bounded='spending transactions with at most 3 inputs (the selection loop is index-generic)'),
            Query('script_patterns', 'harness', ULF.unit_decode, 'h_script_patterns', defines=['VERIF_ITEM_CAP=44', 'VERIF_SCRIPT_CAP=44', 'H_SCRIPT_N=44'], unwind=48, timeout=900, object_bits=10,
                  functions=['script/script.cpp: CScript::IsPayToScriptHash', 'script/script.cpp: CScript::IsPayToWitnessScriptHash', 'script/script.cpp: CScript::IsWitnessProgram']),
-           CFG_TAPROOT, Query('cfg_legacy', 'harness', UM.unit_cfg_taproot, 'h_cfg_legacy', defines=['VERIF_STACK_W=5', 'VERIF_ITEM_CAP=40', 'VERIF_SCRIPT_CAP=40'], unwind=44, timeout=900, object_bits=10, functions=['instance.cpp: Instance::configure_tx_txin (legacy branch)']), L.SETUP, L.END_OF_SCRIPT, L.CTOR, L.COMMITMENT]
+           CFG_TAPROOT, CFG_P2SH, Query('cfg_legacy', 'harness', UM.unit_cfg_taproot, 'h_cfg_legacy', defines=['VERIF_STACK_W=5', 'VERIF_ITEM_CAP=40', 'VERIF_SCRIPT_CAP=40'], unwind=44, timeout=900, object_bits=10, functions=['instance.cpp: Instance::configure_tx_txin (legacy branch)']), L.SETUP, L.END_OF_SCRIPT, L.CTOR, L.COMMITMENT]
 META = {'level': 'proof', 'trusted_base': TRUSTED + ['stubs/tx_env.h: transactions as input lists; parse_tx / GetHash as oracles'],
  'assumptions': ASSUME_COMMON + [
    "claimed fragment: (1) input selection of Instance::parse_input_transaction, (2) the output-type patterns the setup relies on (P2SH, P2WSH, witness program: version and program extraction, all scripts up to 44 bytes), (3) the session phase machine - scriptSig result -> scriptPubKey -> P2SH redeem script (stack save / restore, op-count and opcode-position restart, P2SH armed exactly with the flag and the pattern) and the commitment phase of tapscript sessions",
